@@ -8,3 +8,12 @@ def pathClean (p : Bytes) : Bytes := PathClean.pathClean p
 def pathBase (p : Bytes) : Bytes := PathClean.pathBase p
 def pathIsAbs (p : Bytes) : Bool := PathClean.isAbs p
 end ModVerif.GoRt
+
+namespace ModVerif.GoRt
+open ModVerif
+def pathSplit (p : Bytes) : Bytes × Bytes := PathClean.pathSplit p
+/-- io.ReadAll of an already materialised content -/
+def readAll (b : Bytes) : Bytes × Option String := (b, none)
+/-- os.FileMode.IsRegular: no type bit set (ModeType = 0x8f280000) -/
+def modeIsRegular (m : Int) : Bool := decide (band m 2401763328 = 0)
+end ModVerif.GoRt
